@@ -472,6 +472,15 @@ def _lag_excluded(spec, r, case):
 def gen_closed(draw, tier="quick"):
     spec = draw(c03_specs(accuracy=True, aniso=False))
     lags = draw(lag_lists(spec))
+    # the same radial functions for the model's dimension when the last axis is time (dim = spatial_dim + 1) or when a
+    # lat-lon model lives in 3-D (the documented closed forms take d = model.dim)
+    how = draw(st.sampled_from(["plain"] * 5 + ["temporal", "latlon"]))
+    if how == "temporal" and spec["dim"] >= 2:
+        spec["temporal"], spec["spatial_dim"] = True, spec["dim"] - 1
+    elif how == "latlon" and spec["dim"] == 3:
+        spec["latlon"] = True
+        spec.pop("anis", None)
+        spec.pop("angles", None)
     return {"spec": spec, "lags": lags}
 
 
